@@ -122,6 +122,23 @@ example : ∃ n' r eff, appendEntries exNode 1000 exReq = some (n', r, eff) ∧ 
     n'.commitIndex = 3 ∧ Effect.logTruncate 3 ∈ eff ∧ n'.log.ents.length = 4 := by
   refine ⟨_, _, _, rfl, ?_, ?_, ?_, ?_⟩ <;> decide
 
+/-! ### The overlap probe of E3-appendEntries (DESIGN 13.4)
+
+  The probe holds back the log append of request A (term 3, entries 1-2), issues request B (term 4,
+  another entry 1) and lets the append go; its oracle is "the state both sequential orders produce".
+  That the two orders do coincide, and on which state, is evaluated on the model (a test by
+  evaluation of two concrete requests, not a theorem about all pairs). -/
+def probeNode : Node := { id := 1, term := 3, log := { ents := [] }, config := ⟨1, [(1, true), (2, true), (3, true)]⟩ }
+def probeA : AEReq := { leaderId := 2, term := 3, leaderCommit := 0, prevIndex := 0, prevTerm := 0,
+                        entries := [⟨1, 3, 1, 131, none⟩, ⟨2, 3, 1, 231, none⟩] }
+def probeB : AEReq := { leaderId := 3, term := 4, leaderCommit := 0, prevIndex := 0, prevTerm := 0,
+                        entries := [⟨1, 4, 1, 141, none⟩] }
+def thenAE (n : Option Node) (q : AEReq) : Option Node := n.bind (fun n => (appendEntries n 1000 q).map (·.1))
+
+example : (thenAE (thenAE (some probeNode) probeA) probeB).map (fun n => (n.term, n.log.ents)) = some (4, [⟨1, 4, 1, 141, none⟩]) ∧
+          (thenAE (thenAE (some probeNode) probeB) probeA).map (fun n => (n.term, n.log.ents)) = some (4, [⟨1, 4, 1, 141, none⟩]) := by
+  decide
+
 /-! ### Cluster level (Proofs/ReplSafety.lean) -/
 
 /-- **Log matching, globally.** In every reachable state of the replication-layer model: if
